@@ -75,6 +75,31 @@ type C10Variant struct {
 	TargetFirst bool `json:"target_first,omitempty"`
 	// Reentrant (html with a row-class generator): the generator renders another table
 	Reentrant bool `json:"reentrant,omitempty"`
+	// Tune (bit set): other holders of the same table obtain wrappers of the
+	// target's kind of their own - right after the nesting, i.e. around the
+	// still empty table when the build comes later - and set them up for their
+	// own purposes with every public option the kind has (html: Caption, Class,
+	// Id, a row-class generator; text: another decoration); the target render
+	// is a default-options (or own-options) rendering and must not notice.
+	// 1: wrappers from the kind's own Wrap; 2: wrappers from auto.Wrap under
+	// every spelling of the style; 4: the created object itself and every
+	// nesting layer; 8: each of them renders once (after the mutations, just
+	// before the target); 16: and once right after being set up; 32: the same
+	// holders also keep wrappers, set up alike, around ANOTHER table.
+	Tune int `json:"tune,omitempty"`
+	// StageRenders: while the table is being filled, after each body row listed in
+	// the table's Stages every wrapper object that exists by then (the created
+	// object and, when the build comes after the nesting, every layer) renders
+	// the partial table once
+	StageRenders bool `json:"stage_renders,omitempty"`
+	// Sty shifts the choice among the spellings of the style string that the
+	// auto entry points are given
+	Sty int `json:"sty,omitempty"`
+}
+
+// rendersBefore: something renders the table before the target render does
+func (v C10Variant) rendersBefore() bool {
+	return len(v.Pre) > 0 || v.Tune&24 != 0 || v.StageRenders
 }
 
 var c10Once sync.Once
@@ -191,27 +216,41 @@ func c10MutateHeader(t tabular.Table, objs map[[2]int]*objData) {
 	}
 }
 
-func c10Style(sp C10Spec, alt bool) string {
+// c10Styles: the spellings of the style string under which auto is
+// documented to produce the target format with the target's options.
+func c10Styles(sp C10Spec) []string {
 	switch sp.Fmt {
 	case "text":
-		d := sp.Decor
-		if d == "" {
-			d = "utf8-heavy"
+		if sp.Decor == "" {
+			// the default decoration: by its name, qualified, and as the bare package name
+			return []string{"utf8-heavy", "texttable.utf8-heavy", "texttable", "TextTable"}
 		}
-		if alt {
-			return "texttable." + d
-		}
-		return d
+		return []string{sp.Decor, "texttable." + sp.Decor}
 	case "json":
-		if alt {
-			return "JSON.whatever"
-		}
+		return []string{"json", "JSON.whatever"}
 	case "csv":
-		if alt {
-			return "Csv"
-		}
+		return []string{"csv", "Csv"}
+	case "html":
+		return []string{"html", "HTML"}
+	case "markdown":
+		return []string{"markdown", "Markdown"}
 	}
-	return sp.Fmt
+	return []string{sp.Fmt}
+}
+
+func c10StyleN(sp C10Spec, n int) string {
+	st := c10Styles(sp)
+	if n < 0 {
+		n = -n
+	}
+	return st[n%len(st)]
+}
+
+func c10Style(sp C10Spec, alt bool) string {
+	if alt {
+		return c10StyleN(sp, 1)
+	}
+	return c10StyleN(sp, 0)
 }
 
 func c10Render(sp C10Spec, v C10Variant) Outcome {
@@ -222,17 +261,33 @@ func c10Render(sp C10Spec, v C10Variant) Outcome {
 		}
 		obj := c10Create(v.Path)
 		var objs map[[2]int]*objData
+		layers := []tabular.Table{obj}
+		var stage func()
+		if v.StageRenders {
+			stage = func() {
+				for _, l := range layers {
+					if rw, ok := l.(RenderW); ok {
+						capture(rw.Render)
+					}
+				}
+			}
+		}
 		if v.BuildFirst {
-			objs = sp.Table.buildStaged(obj, nil)
+			objs = sp.Table.buildStaged(obj, stage)
 			if sp.Fill > 0 {
 				c10AddFill(obj, sp.Fill)
 			}
 		}
 		for _, k := range v.Nest {
 			obj = c10WrapKind(obj, k)
+			layers = append(layers, obj)
+		}
+		var tuned []RenderW
+		if v.Tune != 0 {
+			tuned = c10Tune(sp, v.Tune, obj, layers)
 		}
 		if !v.BuildFirst {
-			objs = sp.Table.buildStaged(obj, nil)
+			objs = sp.Table.buildStaged(obj, stage)
 			if sp.Fill > 0 {
 				c10AddFill(obj, sp.Fill)
 			}
@@ -283,6 +338,16 @@ func c10Render(sp C10Spec, v C10Variant) Outcome {
 					return tjson.Render(obj)
 				case "markdown":
 					return markdown.Render(obj)
+				case "text":
+					return texttable.Render(obj)
+				}
+				// "auto:N" / "autoto:N": the auto entry points under the N-th spelling of the target's style
+				var n int
+				if _, err := fmt.Sscanf(pre, "auto:%d", &n); err == nil {
+					return auto.Render(obj, c10StyleN(sp, n))
+				}
+				if _, err := fmt.Sscanf(pre, "autoto:%d", &n); err == nil {
+					return "", auto.RenderTo(obj, &collectWriter{failAt: -1}, c10StyleN(sp, n))
 				}
 				return texttable.Render(obj)
 			})
@@ -309,6 +374,18 @@ func c10Render(sp C10Spec, v C10Variant) Outcome {
 			}
 			c10MutateHeader(obj, objs)
 		}
+		if len(sp.Table.Mutations) > 0 {
+			// items change in place (and their cells are updated) between two renders of the same object
+			if early != nil {
+				capture(early.Render)
+			}
+			c10Mutate(obj, sp.Table, objs)
+		}
+		if v.Tune&8 != 0 {
+			for _, w := range tuned {
+				capture(w.Render)
+			}
+		}
 		entry := v.Entry
 		if early != nil {
 			switch entry % 3 {
@@ -333,7 +410,7 @@ func c10Render(sp C10Spec, v C10Variant) Outcome {
 			}
 			switch plainOf {
 			case 5:
-				return toPlain(func(w io.Writer) error { return auto.RenderTo(obj, w, c10Style(sp, len(v.Nest)%2 == 0)) })
+				return toPlain(func(w io.Writer) error { return auto.RenderTo(obj, w, c10StyleN(sp, len(v.Nest)+1+v.Sty)) })
 			case 4:
 				switch sp.Fmt {
 				case "csv":
@@ -375,9 +452,9 @@ func c10Render(sp C10Spec, v C10Variant) Outcome {
 		}
 		switch entry {
 		case 3:
-			return auto.Render(obj, c10Style(sp, len(v.Nest)%2 == 1))
+			return auto.Render(obj, c10StyleN(sp, len(v.Nest)+v.Sty))
 		case 5:
-			return toBuf(func(w *bytes.Buffer) error { return auto.RenderTo(obj, w, c10Style(sp, len(v.Nest)%2 == 0)) })
+			return toBuf(func(w *bytes.Buffer) error { return auto.RenderTo(obj, w, c10StyleN(sp, len(v.Nest)+1+v.Sty)) })
 		}
 		switch sp.Fmt {
 		case "csv":
@@ -512,6 +589,7 @@ func c10Variants(r *RNG, tier string) []C10Variant {
 		}
 		add(p, nest)
 	}
+	vs = append(vs, c10MoreVariants(r)...)
 	return vs
 }
 
@@ -534,6 +612,9 @@ func init() {
 			"14 creation paths (tabular.New, the five sub-package New, auto.New of 8 style strings) x nestings of further wrappers (depth 0 and 1 exhaustively over the 5 kinds, deeper ones sampled) x building before or after nesting x other formats rendered from the same object first (each single format on every path, two mixed sequences) x 6 entry points " +
 			"(Wrap(t).Render, package Render, Wrap(t).RenderTo into a buffer, auto.Render, package RenderTo, auto.RenderTo, and the three RenderTo forms into a writer that is an io.Writer and nothing more; style strings in several spellings); the first variant is the reference (core table, the format's own Wrap(t).Render()); " +
 			"17 / 40 / 130 wrappers or package-level renders of one measuring kind before the target; two decorations whose dotted names were used through auto before they were registered; cells with invalid UTF-8; a cell filled in by the application's render-time callback (registered on the cell, on the table, on the row, or through another table object; each variant on a fresh table); header items changed in place (Update) between two renders of the target's wrapper; " +
+			"header and body items changed in place after the build (Cell.Update; new text of the same display size, wider, narrower, taller, shorter, empty to non-empty and back, same width in other bytes; rows built by every method, late cells, a second AddHeaders) on every path, with and without a render before the change; " +
+			"other holders' wrappers of the target's kind around the same table (from the kind's Wrap, from auto.Wrap under every spelling of the style, the created object and the nesting layers themselves, and around another table) set up with every public option (html Id/Class/Caption/TemplateName/row-class generator, text decoration by name and hand-made), made around the empty or the finished table, rendered or not, before the target render; " +
+			"the bare style strings texttable / TextTable / HTML / Markdown; second and later auto.Render/RenderTo of one table; the partial table rendered after each row through every wrapper that exists by then; " +
 			"a case is one (table, format) with all its variants; non-trivial when the reference render succeeds with non-empty output; distinct = distinct (format, reference output)",
 		Exhaustive: "creation paths x nesting depth <= 1 for every (table, format)",
 		Gen: func(r *RNG, tier string) []json.RawMessage {
@@ -552,8 +633,8 @@ func init() {
 				return RowSpec{Cells: cs}
 			}
 			tables := []TableSpec{
-				{Header: hdr("a", "b"), Rows: []RowSpec{row("1", "two"), {Sep: true}, row("x")}},
-				{Header: hdr("k", "v", "w"), Rows: []RowSpec{row("m\nl", "é", "3"), row("p", "q")}, Align: map[int]int{0: 2, 2: 3}, Skip: map[int]int{0: 1}},
+				{Header: hdr("a", "b"), Rows: []RowSpec{row("1", "two"), {Sep: true}, row("x")}, Stages: []int{0, 1}},
+				{Header: hdr("k", "v", "w"), Rows: []RowSpec{row("m\nl", "é", "3"), row("p", "q")}, Align: map[int]int{0: 2, 2: 3}, Skip: map[int]int{0: 1}, Stages: []int{0}},
 				{Header: nil, Rows: []RowSpec{row("n1", "n2")}},
 				{Header: hdr("n", "v\xe9"), Rows: []RowSpec{row("caf\xe9", "\xff"), row("ok", "b\x80c\"q")}}, // bytes that are not valid UTF-8
 			}
@@ -591,7 +672,7 @@ func init() {
 				// render would already have filled the cell in)
 				var vs []C10Variant
 				for _, v := range c10Variants(r, tier) {
-					if len(v.Pre) == 0 {
+					if !v.rendersBefore() {
 						vs = append(vs, v)
 					}
 				}
@@ -605,7 +686,7 @@ func init() {
 			for _, f := range []string{"csv", "html", "json"} {
 				var vs []C10Variant
 				for _, v := range c10Variants(r, tier) {
-					if len(v.Pre) == 0 {
+					if !v.rendersBefore() {
 						vs = append(vs, v)
 					}
 				}
@@ -624,6 +705,19 @@ func init() {
 				ts.Header = &h
 				out = append(out, mustJSON(C10Spec{Table: ts, Fmt: fd.f, Decor: fd.d, HdrMut: true, Variants: c10Variants(r, tier)}))
 			}
+			// items changed in place after they were added (every relation between the
+			// old and the new text's sizes), on every path and through every entry point
+			for i, ts := range c10MutTables(r) {
+				for j, fd := range c10Fmts {
+					if fd.d == "gen" || len(fd.d) > 12 {
+						continue
+					}
+					if i >= 4 && (i+j)%2 == 0 && fd.f != "text" {
+						continue
+					}
+					out = append(out, mustJSON(C10Spec{Table: ts, Fmt: fd.f, Decor: fd.d, Variants: c10Variants(r, tier)}))
+				}
+			}
 			return out
 		},
 		Run: func(spec json.RawMessage) CaseOut {
@@ -636,6 +730,7 @@ func init() {
 			if sp.HdrMut {
 				c10MutateHeader(t, objs)
 			}
+			c10Mutate(t, sp.Table, objs)
 			if sp.Fill > 0 {
 				c10AddFill(t, sp.Fill)
 				t.InvokeRenderCallbacks() // the view a renderer reads after the callbacks have run
@@ -694,27 +789,60 @@ func init() {
 				return nil
 			}
 			var out []json.RawMessage
+			with := func(ts TableSpec, vs []C10Variant) {
+				c := sp
+				c.Table, c.Variants = ts, vs
+				out = append(out, mustJSON(c))
+			}
 			// keep the reference plus one variant at a time
 			if len(sp.Variants) > 2 {
 				for i := 1; i < len(sp.Variants); i++ {
-					out = append(out, mustJSON(C10Spec{Table: sp.Table, Fmt: sp.Fmt, Decor: sp.Decor, Fill: sp.Fill, HdrMut: sp.HdrMut, Variants: []C10Variant{sp.Variants[0], sp.Variants[i]}}))
+					with(sp.Table, []C10Variant{sp.Variants[0], sp.Variants[i]})
 				}
 				return out
 			}
 			for _, ts := range shrinkTable(sp.Table) {
-				out = append(out, mustJSON(C10Spec{Table: ts, Fmt: sp.Fmt, Decor: sp.Decor, Fill: sp.Fill, HdrMut: sp.HdrMut, Variants: sp.Variants}))
+				with(ts, sp.Variants)
 			}
 			if len(sp.Variants) == 2 {
 				v := sp.Variants[1]
+				one := func(v2 C10Variant) { with(sp.Table, []C10Variant{sp.Variants[0], v2}) }
 				for i := range v.Nest {
 					v2 := v
 					v2.Nest = append(append([]string{}, v.Nest[:i]...), v.Nest[i+1:]...)
-					out = append(out, mustJSON(C10Spec{Table: sp.Table, Fmt: sp.Fmt, Decor: sp.Decor, Fill: sp.Fill, HdrMut: sp.HdrMut, Variants: []C10Variant{sp.Variants[0], v2}}))
+					one(v2)
 				}
 				for i := range v.Pre {
 					v2 := v
 					v2.Pre = append(append([]string{}, v.Pre[:i]...), v.Pre[i+1:]...)
-					out = append(out, mustJSON(C10Spec{Table: sp.Table, Fmt: sp.Fmt, Decor: sp.Decor, Fill: sp.Fill, HdrMut: sp.HdrMut, Variants: []C10Variant{sp.Variants[0], v2}}))
+					one(v2)
+				}
+				for _, bit := range []int{1, 2, 4, 8, 16, 32} {
+					if v.Tune&bit != 0 {
+						v2 := v
+						v2.Tune &^= bit
+						one(v2)
+					}
+				}
+				if v.Poison {
+					v2 := v
+					v2.Poison = false
+					one(v2)
+				}
+				if v.StageRenders {
+					v2 := v
+					v2.StageRenders = false
+					one(v2)
+				}
+				if v.TargetFirst {
+					v2 := v
+					v2.TargetFirst = false
+					one(v2)
+				}
+				if v.Sty > 3 {
+					v2 := v
+					v2.Sty = v.Sty % 4
+					one(v2)
 				}
 			}
 			return out
